@@ -209,7 +209,7 @@ CHECKS = {
         note='For |x| <= 1e5 the float loops are exact, so the float program is the rational program (checked bit-exactly); the one rounding step '
              '(lon +-180 of a longitude off the 2^-45 grid) is compared within one ulp of 180 in a separate stream; xyz theorems are over the '
              'reals, libm error is only measured; NaN/inf are excluded (the loops do not terminate there).',
-        technique='Lean 4 proof (termination measure, invariants, real trigonometric identities) + bit-exact differential correspondence + exact-fraction oracle',
+        technique='Lean 4 proof (termination measure, invariants, real trigonometric identities) + source translator (Coordinate.__init__ with its two while loops regenerated as fuelled recursions and proved equal to the model) + bit-exact differential correspondence + exact-fraction oracle',
         design='§6 C08'),
     'C19': dict(
         text='Lean 4 theorems over an exact-arithmetic model of to_dms / from_dms / to_qdms / from_qdms (partial for the external formats): DMS round '
